@@ -84,6 +84,7 @@ func vh_C18_lru() {
 		d := h % 6
 		h /= 6
 		k, kind := d/2, d%2
+		acq := verif.MutexAcquisitions(&c.Mutex)
 		if kind == 0 {
 			got := c.Get(&keyUniverse[k])
 			want := ref.get(k)
@@ -92,6 +93,7 @@ func vh_C18_lru() {
 			c.Put(&keyUniverse[k], exp[k])
 			ref.put(k, exp[k])
 		}
+		verif.Assert(verif.MutexAcquisitions(&c.Mutex) == acq+1, "each Get/Put is ONE critical section (the mutex is acquired exactly once per operation)")
 		verif.Assert(len(c.store) == len(ref.keys) && c.list.Len() == len(ref.keys) && len(ref.keys) <= capa, "size: index and recency list agree and never exceed the capacity")
 		// recency order and index/list consistency
 		e := c.list.Front()
@@ -134,6 +136,7 @@ func vh_C09_cacheVerifier() {
 	msg := make([]byte, 1)
 	verif.AnyBytes("msg", msg)
 	v := NewVerifier(&symCache{hit: verif.AnyBool("hit")})
+	verif.SharedRO(v) // a Verifier is meant to be shared between goroutines: its only mutable state is the Cache
 	got := v.Verify(pk, msg, sig)
 	if nk != 32 {
 		verif.Assert(!got, "bad key length: false, no panic")
